@@ -49,7 +49,18 @@ def build(rng, tmp, secure_method):
     s.blob = BytesField(default=bytes(rng.getrandbits(8) for _ in range(5)))
     s.db.host = StringField(default="localhost")
     s.db.secret = SecureField(method=secure_method, default="s3cr3t-%d" % rng.randint(0, 9999))
+    # a list of configurations holding secrets, below a sub-configuration (their key file is the root's)
+    acct = Schema()
+    acct.user = StringField()
+    acct.password = SecureField(method=secure_method)
+    s.site.accounts = ListField(acct, default=lambda: [])
+    # fields bound to environment variables that are set but empty (run() sets them): no binding as far as the library goes
+    s.mode = StringField(default="production", env="CINCO_T_C19_MODE")
+    s.site.port = IntField(default=5432, env="CINCO_T_C19_SITE_PORT")
     cfg = s()
+    cfg.site.accounts = [{"user": "u%d" % j, "password": "pw-%d-%d" % (j, rng.randint(0, 9999))} for j in range(rng.randint(1, 3))]
+    cfg.mode = "debug"
+    cfg.site.port = rng.randint(6000, 6999)
     kp = os.path.join(tmp, "key-%d" % rng.randint(0, 10 ** 9))
     with open(kp, "wb") as f:
         f.write(bytes(rng.getrandbits(8) for _ in range(32)))
@@ -74,6 +85,8 @@ def run(ctx):
     tmp = ctx.tmpdir()
     reqs, pend = [], []
     n = ctx.n(6, 120)
+    os.environ["CINCO_T_C19_MODE"] = ""
+    os.environ["CINCO_T_C19_SITE_PORT"] = ""
     for it in range(n):
         for fmt in FORMATS:
             method = rng.choice(["xor", "aes", "best"])
@@ -188,7 +201,7 @@ def run(ctx):
                         u()
                 case = {"stream": "save-fault", "fmt": fmt, "fault": fault, "method": method}
                 res.case(("fault", fmt, fault, it), sample=case if it == 0 else None, kind="fault:" + fault)
-                if raised is None and fault in ("xml-control-char", "xml-bad-key", "keyfile-retry"):
+                if raised is None and fault in ("xml-control-char", "xml-bad-key", "keyfile-retry", "set-value", "bson-int"):
                     # the save went through: then the file it wrote has to load back (with the key file as it is now)
                     c3 = schema()
                     c3._key_filename = kp
@@ -219,6 +232,8 @@ def run(ctx):
                     observed = "untouched"
                 reqs.append({"cmd": "save.exec", "content": "00", "fault_at": model_fault})
                 pend.append((case, observed, True))
+    os.environ.pop("CINCO_T_C19_MODE", None)
+    os.environ.pop("CINCO_T_C19_SITE_PORT", None)
     replies = ctx.model(reqs)
     if replies is not None:
         for (case, want, raised), r in zip(pend, replies):
